@@ -643,17 +643,74 @@ type GxGuardFact struct {
 func (s *GxSym) GuardFacts(b *ssa.BasicBlock) []GxGuardFact {
 	var out []GxGuardFact
 	for _, g := range Guards(b) {
-		if fs, ok := s.expandBoolCall(g.Cond, g.True); ok {
-			for _, f := range fs {
-				out = append(out, GxGuardFact{GxFact: f, If: g.If, True: g.True})
-			}
-			continue
-		}
-		if f, ok := s.FactOf(g.Cond, g.True); ok {
-			out = append(out, GxGuardFact{GxFact: f, If: g.If, True: g.True})
-		}
+		s.condFacts(g.Cond, g.True, g.If, g.True, &out, 0)
 	}
 	return out
+}
+
+// CondFacts appends the facts that follow from cond having the given truth value (see condFacts).
+func (s *GxSym) CondFacts(cond ssa.Value, truth bool, out *[]GxGuardFact) {
+	s.condFacts(cond, truth, nil, truth, out, 0)
+}
+
+// condFacts appends the facts that follow from cond having the given truth value. A condition
+// that is a boolean phi (go/ssa evaluates `a && b` as a value in switch-case expressions and in
+// assignments) with exactly one incoming edge able to carry that truth value is replaced by the
+// conditions of that edge: the guards of the predecessor, the branch taken into the phi block
+// and the incoming value itself.
+func (s *GxSym) condFacts(cond ssa.Value, truth bool, ifi *ssa.If, ifTrue bool, out *[]GxGuardFact, depth int) {
+	for {
+		u, ok := cond.(*ssa.UnOp)
+		if !ok || u.Op != token.NOT {
+			break
+		}
+		cond, truth = u.X, !truth
+	}
+	if fs, ok := s.expandBoolCall(cond, truth); ok {
+		for _, f := range fs {
+			*out = append(*out, GxGuardFact{GxFact: f, If: ifi, True: ifTrue})
+		}
+		return
+	}
+	if ph, ok := cond.(*ssa.Phi); ok && depth < 4 && gxIsScalar(ph.Type()) && !GxIsLoopHeaderPhi(ph) {
+		cand := -1
+		n := 0
+		for i, e := range ph.Edges {
+			if c, isC := e.(*ssa.Const); isC && c.Value != nil && c.Value.Kind() == constant.Bool && constant.BoolVal(c.Value) != truth {
+				continue
+			}
+			cand = i
+			n++
+		}
+		if n == 1 && cand < len(ph.Block().Preds) {
+			pred := ph.Block().Preds[cand]
+			var sub []GxGuardFact
+			for _, g := range Guards(pred) {
+				s.condFacts(g.Cond, g.True, ifi, ifTrue, &sub, depth+1)
+			}
+			if pi, isIf := pred.Instrs[len(pred.Instrs)-1].(*ssa.If); isIf && len(pred.Succs) == 2 && pred.Succs[0] != pred.Succs[1] {
+				s.condFacts(pi.Cond, pred.Succs[0] == ph.Block(), ifi, ifTrue, &sub, depth+1)
+			}
+			if _, isC := ph.Edges[cand].(*ssa.Const); !isC {
+				s.condFacts(ph.Edges[cand], truth, ifi, ifTrue, &sub, depth+1)
+			}
+			for _, f := range sub {
+				dup := false
+				for _, o := range *out {
+					if o.Same(f.GxFact) {
+						dup = true
+					}
+				}
+				if !dup {
+					*out = append(*out, f)
+				}
+			}
+			return
+		}
+	}
+	if f, ok := s.FactOf(cond, truth); ok {
+		*out = append(*out, GxGuardFact{GxFact: f, If: ifi, True: ifTrue})
+	}
 }
 
 // expandBoolCall: cond is (a negation of) a call of a loop-free fq function returning bool.
